@@ -51,36 +51,119 @@ Definition reg_kind (r : registration) : mkind := mkind_of (reg_match r).
 Definition callee_reg_ids (d : dealer) (sid : N) : list N :=
   match nget (d_callee_regs d) sid with Some l => l | None => [] end.
 
-(** ** The invariant *)
-Record dealer_wf (lookup : N -> option session) (d : dealer) : Prop := {
-  (* registrations *)
-  wf_map : forall k p id, sget (d_map d k) p = Some id ->
+(** ** The invariant
+
+    Registration side: the three procedure maps, [d_regs] and [d_callee_regs]
+    describe one relation.  Call side: [d_calls], [d_invs], [d_bycall] are in
+    bijection and every armed timer belongs to a pending call.  The parts that
+    mention the session table ([lookup]) are kept apart ([regs_att],
+    [calls_att]) because a departing session changes it. *)
+Record regs_core (d : dealer) : Prop := {
+  rw_map : forall k p id, sget (d_map d k) p = Some id ->
            exists r, nget (d_regs d) id = Some r /\ reg_proc r = p /\ reg_kind r = k;
-  wf_reg : forall id r, nget (d_regs d) id = Some r ->
+  rw_reg : forall id r, nget (d_regs d) id = Some r ->
            reg_id r = id /\ sget (d_map d (reg_kind r)) (reg_proc r) = Some id /\ id <= d_idgen d;
-  wf_callees : forall id r, nget (d_regs d) id = Some r ->
-           reg_callees r <> [] /\ NoDup (reg_callees r) /\ forall c, In c (reg_callees r) -> attached lookup c;
-  wf_mapkeys : forall k, NoDup (map fst (d_map d k));
-  wf_regkeys : NoDup (map fst (d_regs d));
-  wf_crkeys : NoDup (map fst (d_callee_regs d));
-  wf_cr : forall sid id, In id (callee_reg_ids d sid) <->
-           exists r, nget (d_regs d) id = Some r /\ In sid (reg_callees r);
-  (* calls *)
-  wf_bycall : forall cid ikey, cget (d_bycall d) cid = Some ikey ->
-           exists inv, cget (d_invs d) ikey = Some inv /\ inv_call inv = cid;
-  wf_inv : forall ikey inv, cget (d_invs d) ikey = Some inv ->
-           cget (d_bycall d) (inv_call inv) = Some ikey /\ inv_callee inv = fst ikey /\
-           exists s, lookup (fst ikey) = Some s /\ snd ikey <= s_invgen s;
-  wf_call : forall cid x, cget (d_calls d) cid = Some x ->
-           x = fst cid /\ attached lookup x /\ cget (d_bycall d) cid <> None;
-  wf_bycall_call : forall cid ikey, cget (d_bycall d) cid = Some ikey -> cget (d_calls d) cid <> None;
-  (* timers *)
-  wf_timer : forall t dl cid, nget (d_timers d) t = Some (dl, cid) ->
-           t <= d_timergen d /\
-           exists ikey inv, cget (d_bycall d) cid = Some ikey /\ cget (d_invs d) ikey = Some inv /\ inv_timer inv = Some t;
-  wf_inv_timer : forall ikey inv t, cget (d_invs d) ikey = Some inv -> inv_timer inv = Some t -> t <= d_timergen d;
-  wf_timerkeys : NoDup (map fst (d_timers d))
+  rw_callees : forall id r, nget (d_regs d) id = Some r ->
+           reg_callees r <> [] /\ NoDup (reg_callees r) /\
+           ((2 <= List.length (reg_callees r))%nat -> shared_policy (reg_policy r) = true);
+  rw_mapkeys : forall k, NoDup (map fst (d_map d k));
+  rw_regkeys : NoDup (map fst (d_regs d));
+  rw_crkeys : NoDup (map fst (d_callee_regs d))
 }.
+
+(** [d_callee_regs] lists for [sid] exactly the registrations it is a callee of *)
+Definition cr_ok (d : dealer) (sid : N) : Prop :=
+  forall id, In id (callee_reg_ids d sid) <-> exists r, nget (d_regs d) id = Some r /\ In sid (reg_callees r).
+
+Definition regs_att (lookup : N -> option session) (d : dealer) : Prop :=
+  forall id r c, nget (d_regs d) id = Some r -> In c (reg_callees r) -> attached lookup c.
+
+Record calls_core (d : dealer) : Prop := {
+  cw_bycall : forall cid ikey, cget (d_bycall d) cid = Some ikey ->
+           exists inv, cget (d_invs d) ikey = Some inv /\ inv_call inv = cid;
+  cw_inv : forall ikey inv, cget (d_invs d) ikey = Some inv ->
+           cget (d_bycall d) (inv_call inv) = Some ikey /\ inv_callee inv = fst ikey;
+  cw_call : forall cid x, cget (d_calls d) cid = Some x -> x = fst cid /\ cget (d_bycall d) cid <> None;
+  cw_bycall_call : forall cid ikey, cget (d_bycall d) cid = Some ikey -> cget (d_calls d) cid <> None;
+  cw_timer : forall t dl cid, nget (d_timers d) t = Some (dl, cid) ->
+           t <= d_timergen d /\
+           exists ikey inv, cget (d_bycall d) cid = Some ikey /\ cget (d_invs d) ikey = Some inv /\
+                            inv_timer inv = Some t;
+  cw_inv_timer : forall ikey inv t, cget (d_invs d) ikey = Some inv -> inv_timer inv = Some t ->
+           t <= d_timergen d;
+  cw_timer_inj : forall ikey inv t dl cid, cget (d_invs d) ikey = Some inv -> inv_timer inv = Some t ->
+           nget (d_timers d) t = Some (dl, cid) -> inv_call inv = cid
+}.
+
+Record calls_att (lookup : N -> option session) (d : dealer) : Prop := {
+  ca_inv : forall ikey inv, cget (d_invs d) ikey = Some inv ->
+           exists s, lookup (fst ikey) = Some s /\ snd ikey <= s_invgen s;
+  ca_call : forall cid x, cget (d_calls d) cid = Some x -> attached lookup (fst cid)
+}.
+
+Record dealer_wf (lookup : N -> option session) (d : dealer) : Prop := {
+  wf_regs : regs_core d;
+  wf_cr : forall sid, cr_ok d sid;
+  wf_regs_att : regs_att lookup d;
+  wf_calls : calls_core d;
+  wf_calls_att : calls_att lookup d
+}.
+
+Section WfProjections.
+  Variables (lookup : N -> option session) (d : dealer).
+  Hypothesis WF : dealer_wf lookup d.
+  Lemma wf_map : forall k p id, sget (d_map d k) p = Some id ->
+      exists r, nget (d_regs d) id = Some r /\ reg_proc r = p /\ reg_kind r = k.
+  Proof. apply (rw_map _ (wf_regs _ _ WF)). Qed.
+  Lemma wf_reg : forall id r, nget (d_regs d) id = Some r ->
+      reg_id r = id /\ sget (d_map d (reg_kind r)) (reg_proc r) = Some id /\ id <= d_idgen d.
+  Proof. apply (rw_reg _ (wf_regs _ _ WF)). Qed.
+  Lemma wf_callees : forall id r, nget (d_regs d) id = Some r ->
+      reg_callees r <> [] /\ NoDup (reg_callees r) /\
+      ((2 <= List.length (reg_callees r))%nat -> shared_policy (reg_policy r) = true) /\
+      forall c, In c (reg_callees r) -> attached lookup c.
+  Proof.
+    intros id r H. destruct (rw_callees _ (wf_regs _ _ WF) id r H) as (A & B & C).
+    repeat split; auto. intros c Hc. eapply (wf_regs_att _ _ WF); eauto.
+  Qed.
+  Lemma wf_mapkeys : forall k, NoDup (map fst (d_map d k)).
+  Proof. apply (rw_mapkeys _ (wf_regs _ _ WF)). Qed.
+  Lemma wf_bycall : forall cid ikey, cget (d_bycall d) cid = Some ikey ->
+      exists inv, cget (d_invs d) ikey = Some inv /\ inv_call inv = cid.
+  Proof. apply (cw_bycall _ (wf_calls _ _ WF)). Qed.
+  Lemma wf_inv : forall ikey inv, cget (d_invs d) ikey = Some inv ->
+      cget (d_bycall d) (inv_call inv) = Some ikey /\ inv_callee inv = fst ikey /\
+      exists s, lookup (fst ikey) = Some s /\ snd ikey <= s_invgen s.
+  Proof.
+    intros ikey inv H. destruct (cw_inv _ (wf_calls _ _ WF) ikey inv H) as (A & B).
+    repeat split; auto. eapply (ca_inv _ _ (wf_calls_att _ _ WF)); eauto.
+  Qed.
+  Lemma wf_call : forall cid x, cget (d_calls d) cid = Some x ->
+      x = fst cid /\ attached lookup x /\ cget (d_bycall d) cid <> None.
+  Proof.
+    intros cid x H. destruct (cw_call _ (wf_calls _ _ WF) cid x H) as (A & B).
+    repeat split; auto. subst x. eapply (ca_call _ _ (wf_calls_att _ _ WF)); eauto.
+  Qed.
+  Lemma wf_bycall_call : forall cid ikey, cget (d_bycall d) cid = Some ikey -> cget (d_calls d) cid <> None.
+  Proof. apply (cw_bycall_call _ (wf_calls _ _ WF)). Qed.
+
+  (** a recorded invocation determines the whole pending call *)
+  Lemma wf_inv_pending : forall ikey inv, cget (d_invs d) ikey = Some inv ->
+      pending d (inv_call inv) ikey inv (fst (inv_call inv)).
+  Proof.
+    intros ikey inv H. destruct (wf_inv ikey inv H) as (Hb & _).
+    pose proof (wf_bycall_call _ _ Hb) as Hc.
+    destruct (cget (d_calls d) (inv_call inv)) as [x|] eqn:E; [|congruence].
+    destruct (wf_call _ _ E) as (-> & _). unfold pending. auto.
+  Qed.
+  Lemma wf_pending_call : forall cid ikey inv x, pending d cid ikey inv x ->
+      inv_call inv = cid /\ x = fst cid /\ inv_callee inv = fst ikey.
+  Proof.
+    intros cid ikey inv x (Hc & Hb & Hi).
+    destruct (wf_bycall _ _ Hb) as (inv' & Hi' & E). assert (inv' = inv) by congruence. subst inv'.
+    destruct (wf_call _ _ Hc) as (-> & _). destruct (wf_inv _ _ Hi) as (_ & Hce & _). auto.
+  Qed.
+End WfProjections.
 
 (** ** CANCEL *)
 Definition callee_can_cancel (lookup : N -> option session) (inv : invocation) : bool :=
